@@ -30,18 +30,20 @@ func init() {
 }
 
 type canonIn struct {
-	Kind    string  `json:"kind"` // sum | full | reuse
-	Name    string  `json:"name"`
-	G       gJ      `json:"g"`
-	Pis     [][]int `json:"pis"`     // sum: explicit relabellings (nil = the family decided by All/Samples)
-	All     bool    `json:"all"`     // sum: all n! relabellings
-	Samples int     `json:"samples"` // sum: number of seeded random relabellings
-	Seed    int64   `json:"seed"`
-	Classes [][]int `json:"classes"`
-	Pi      []int   `json:"pi"`  // full: relabelling applied before the call
-	Rep     string  `json:"rep"` // full
-	Seq     []gJ    `json:"seq"` // reuse: graphs pushed through one storage
-	Cap     int     `json:"cap"`
+	Kind    string    `json:"kind"` // sum | full | reuse
+	Name    string    `json:"name"`
+	G       gJ        `json:"g"`
+	Pis     [][]int   `json:"pis"`     // sum: explicit relabellings (nil = the family decided by All/Samples)
+	All     bool      `json:"all"`     // sum: all n! relabellings
+	Samples int       `json:"samples"` // sum: number of seeded random relabellings
+	Seed    int64     `json:"seed"`
+	Classes [][]int   `json:"classes"`
+	Pi      []int     `json:"pi"`     // full: relabelling applied before the call
+	Rep     string    `json:"rep"`    // full
+	Seq     []gJ      `json:"seq"`    // reuse: graphs pushed through one storage
+	SeqCls  [][][]int `json:"seqcls"` // reuse: vertex classes per graph of the sequence (nil entries = none)
+	Cap     int       `json:"cap"`
+	Known   [][]int   `json:"known"` // full: automorphisms of g known by construction (a[v] = image of v)
 }
 
 func (in canonIn) key() string {
@@ -236,10 +238,23 @@ func packFull(perm []int, orb disjoint.Set, gens [][]int) fullRes {
 
 func canonFull(in canonIn) tr.E {
 	pi := in.Pi
-	if pi == nil {
+	if len(pi) != in.G.N {
 		pi = identity(in.G.N)
 	}
 	cls := mapClasses(in.Classes, pi)
+	// the known automorphisms in the labelling of the relabelled graph: new vertex i is old pi[i]
+	inv := make([]int, len(pi))
+	for i, v := range pi {
+		inv[v] = i
+	}
+	known := [][]int{}
+	for _, a := range in.Known {
+		b := make([]int, len(pi))
+		for i := range pi {
+			b[i] = inv[a[pi[i]]]
+		}
+		known = append(known, b)
+	}
 	var f fullRes
 	res := obs.Safe(func() {
 		h := graphOfJ(in.Rep, in.G).InducedSubgraph(pi)
@@ -253,7 +268,7 @@ func canonFull(in canonIn) tr.E {
 		c = cls
 	}
 	return tr.E{"ev": "CanonFull", "g": in.G, "pi": pi, "classes": c, "perm": f.Perm, "orbits": f.Orbits, "gens": f.Gens,
-		"reused": false, "fresh": f, "bf": in.G.N <= 8, "res": res}
+		"reused": false, "fresh": f, "bf": in.G.N <= 8, "res": res, "known": known}
 }
 
 // canonReuse pushes a sequence of graphs through ONE storage / partition pair and, for each, also makes a fresh call.
@@ -261,8 +276,12 @@ func canonReuse(w *tr.W, in canonIn) {
 	capN := in.Cap
 	storage := graph.NewStorage(capN, capN*(capN-1)/2)
 	op := graph.NewOrderedPartition(capN, capN*(capN-1)/2, nil)
-	for _, gj := range in.Seq {
+	for k, gj := range in.Seq {
 		var reused, fresh fullRes
+		var cls [][]int
+		if k < len(in.SeqCls) && len(in.SeqCls[k]) > 0 {
+			cls = in.SeqCls[k]
+		}
 		res := obs.Safe(func() {
 			h := graphOfJ("dense", gj)
 			n, m := h.N(), h.M()
@@ -270,8 +289,8 @@ func canonReuse(w *tr.W, in canonIn) {
 			for i := range nb {
 				nb[i] = h.Neighbours(i)
 			}
-			fresh = packFull(graph.CanonicalIsomorphFull(h, nil))
-			op.Reset(n, m, nil)
+			fresh = packFull(graph.CanonicalIsomorphFull(h, cls))
+			op.Reset(n, m, cls)
 			reused = packFull(graph.CanonicalIsomorphAllocated(n, m, nb, op, storage, new(graph.CanonicalOptions)))
 		})
 		if reused.Perm == nil {
@@ -280,8 +299,12 @@ func canonReuse(w *tr.W, in canonIn) {
 		if fresh.Perm == nil {
 			fresh = fullRes{Perm: []int{}, Orbits: [][]int{}, Gens: [][]int{}}
 		}
-		w.Emit(tr.E{"ev": "CanonFull", "g": gj, "pi": identity(gj.N), "classes": [][]int{}, "perm": reused.Perm, "orbits": reused.Orbits,
-			"gens": reused.Gens, "reused": true, "fresh": fresh, "bf": gj.N <= 8, "res": res})
+		ec := [][]int{}
+		if cls != nil {
+			ec = cls
+		}
+		w.Emit(tr.E{"ev": "CanonFull", "g": gj, "pi": identity(gj.N), "classes": ec, "perm": reused.Perm, "orbits": reused.Orbits,
+			"gens": reused.Gens, "reused": true, "fresh": fresh, "bf": gj.N <= 8, "res": res, "known": [][]int{}})
 		if res != "ok" {
 			return
 		}
@@ -350,6 +373,24 @@ func hardGraphs() map[string]gJ {
 	h["2xpetersen"] = disjointUnion(h["petersen"], h["petersen"])
 	h["c5+c5+k1"] = disjointUnion(disjointUnion(gJOf(graph.Cycle(5)), gJOf(graph.Cycle(5))), gJ{N: 1})
 	h["p4+p4"] = disjointUnion(gJOf(graph.Path(4)), gJOf(graph.Path(4)))
+	// larger vertex-transitive / regular graphs: cells of more than 20 vertices (merge sort path of the refinement)
+	put("rook55", graph.RookGraph(5, 5))
+	put("kneser72", graph.KneserGraph(7, 2))
+	put("cube5", graph.HypercubeGraph(5))
+	put("folded6", graph.FoldedHypercubeGraph(6))
+	put("paley29", graph.CirculantGraph(29, 1, 4, 5, 6, 7, 9, 13))
+	put("circ25", graph.CirculantGraph(25, 1, 2))
+	put("circ30", graph.CirculantGraph(30, 1, 3, 5))
+	put("gp125", graph.GeneralisedPetersenGraph(12, 5))
+	h["2xsnark3"] = disjointUnion(h["snark3"], h["snark3"])
+	h["3xpetersen"] = disjointUnion(h["2xpetersen"], h["petersen"])
+	h["2xgp83"] = disjointUnion(h["gp83"], h["gp83"])
+	h["petersen+dodeca"] = disjointUnion(h["petersen"], h["dodeca"])
+	// complements: dense regular graphs whose refinement counts are >= 2
+	for _, nm := range []string{"petersen", "snark3", "snark5", "2xpetersen", "2xsnark3", "3xpetersen", "2xgp83", "c12", "rook44", "cube4", "shrikhande", "dodeca", "circ25", "gp125", "kneser72"} {
+		g := h[nm]
+		h["co-"+nm] = gJOf(graph.ComplementDense(graphOfJ("dense", g)))
+	}
 	// the two 8-vertex graphs on which the pinned tree's orbit pruning was unsound
 	if g, err := graph.Graph6Decode("G|WW}K"); err == nil {
 		h["G|WW}K"] = gJOf(g)
@@ -506,6 +547,87 @@ func canonGrid(c *Ctx, prop string) []canonIn {
 	}
 	add(canonIn{Kind: "full", Name: "c6-classes", G: gJOf(graph.Cycle(6)), Classes: [][]int{{0}, {1, 2, 3, 4, 5}}, Rep: "dense"})
 	add(canonIn{Kind: "full", Name: "edgeless-classes", G: gJ{N: 4}, Classes: [][]int{{0, 1}, {2, 3}}, Rep: "dense"})
+	// families whose automorphisms are known by construction, at sizes around the block size of the refinement sort (20, 40)
+	for _, n := range []int{9, 12, 19, 20, 21, 22, 40, 41, 42, 45} {
+		refl := make([]int, n)
+		rot := make([]int, n)
+		for i := range refl {
+			refl[i] = n - 1 - i
+			rot[i] = (i + 1) % n
+		}
+		add(canonIn{Kind: "full", Name: "path", G: gJOf(graph.Path(n)), Known: [][]int{refl}, Rep: "dense", Pi: r.Perm(n)})
+		add(canonIn{Kind: "full", Name: "path", G: gJOf(graph.Path(n)), Known: [][]int{refl}, Rep: "sparse"})
+		add(canonIn{Kind: "full", Name: "cycle", G: gJOf(graph.Cycle(n)), Known: [][]int{rot, refl}, Rep: "dense", Pi: r.Perm(n)})
+		add(canonIn{Kind: "full", Name: "circulant", G: gJOf(graph.CirculantGraph(n, 1, 3)), Known: [][]int{rot, refl}, Rep: "sparse"})
+		star := identity(n)
+		star[1], star[n-1] = n-1, 1
+		cyc := identity(n)
+		for i := 1; i < n; i++ {
+			cyc[i] = 1 + i%(n-1)
+		}
+		add(canonIn{Kind: "full", Name: "star", G: gJOf(graph.Star(n)), Known: [][]int{star, cyc}, Rep: "dense", Pi: r.Perm(n)})
+		// two copies of a path: swap the copies
+		pp := disjointUnion(gJOf(graph.Path(n)), gJOf(graph.Path(n)))
+		swap := make([]int, 2*n)
+		for i := 0; i < n; i++ {
+			swap[i], swap[n+i] = n+i, i
+		}
+		add(canonIn{Kind: "full", Name: "2xpath", G: pp, Known: [][]int{swap}, Rep: "dense", Pi: r.Perm(2 * n)})
+	}
+	// reuse: every (previous kind and size) -> (next kind and size) pair through one storage, with and without vertex classes
+	kindOf := func(k, n int) gJ {
+		switch k {
+		case 0:
+			return gJ{N: n}
+		case 1:
+			return gJOf(graph.CompleteGraph(n))
+		case 2:
+			if n >= 3 {
+				return gJOf(graph.Cycle(n))
+			}
+			return gJOf(graph.Path(n))
+		case 3:
+			return gJOf(graph.Path(n))
+		}
+		return randGraphJ(r, n, 0.5)
+	}
+	clsOf := func(n int) [][]int {
+		if n < 2 || r.Intn(2) == 0 {
+			return nil
+		}
+		switch r.Intn(3) {
+		case 0: // vertex 0 alone
+			rest := []int{}
+			for v := 1; v < n; v++ {
+				rest = append(rest, v)
+			}
+			return [][]int{{0}, rest}
+		case 1: // last vertex alone, first
+			rest := []int{}
+			for v := 0; v < n-1; v++ {
+				rest = append(rest, v)
+			}
+			return [][]int{{n - 1}, rest}
+		}
+		a, b := []int{}, []int{}
+		for v := 0; v < n; v++ {
+			if v%2 == 0 {
+				a = append(a, v)
+			} else {
+				b = append(b, v)
+			}
+		}
+		return [][]int{a, b}
+	}
+	for ka := 0; ka < 5; ka++ {
+		for _, a := range []int{1, 2, 4, 5, 8} {
+			for kb := 0; kb < 5; kb++ {
+				for _, b := range []int{0, 1, 2, 3, 5, 8} {
+					add(canonIn{Kind: "reuse", Name: "kindpair", Seq: []gJ{kindOf(ka, a), kindOf(kb, b)}, SeqCls: [][][]int{nil, clsOf(b)}, Cap: 8})
+				}
+			}
+		}
+	}
 	// reuse: sequences of graphs of sizes going up and down through one storage
 	kinds := func(n int) gJ {
 		switch r.Intn(5) {
